@@ -194,7 +194,7 @@ func (f *File) register(path string) string {
 	// If the name is invalid or has been registered already, make it unique by appending a number
 	unique := name
 	i := 0
-	for !f.isValidAlias(unique) {
+	for !f.isValidAlias(unique) || !f.isValidAlias(f.prefixed(unique, alias || unique != name)) {
 		i++
 		unique = fmt.Sprintf("%s%d", name, i)
 	}
@@ -205,14 +205,20 @@ func (f *File) register(path string) string {
 	}
 
 	// Only add a prefix if the name is an alias
-	if f.PackagePrefix != "" && alias {
-		unique = f.PackagePrefix + "_" + unique
-	}
+	unique = f.prefixed(unique, alias)
 
 	// Register the eventual name
 	f.imports[path] = importdef{name: unique, alias: alias}
 
 	return unique
+}
+
+// prefixed returns the name under which an import is registered: aliases get the package prefix.
+func (f *File) prefixed(name string, alias bool) string {
+	if f.PackagePrefix != "" && alias {
+		return f.PackagePrefix + "_" + name
+	}
+	return name
 }
 
 // GoString renders the File for testing. Any error will cause a panic.
